@@ -94,7 +94,8 @@ def ask(cfg, name, d, noise, pkgname, srctime=SRC):
     elif kind == 'pypkg':
         s = PyPackageSearcher(pkgname)
     else:
-        s = StubSearcher(*([name, 'OTHER-MIB'] if cfg['inlist'] else ['OTHER-MIB']))
+        # near misses in the list: names that merely contain the module name must not make it a stub
+        s = StubSearcher(*([name, 'OTHER-MIB'] if cfg['inlist'] else ['OTHER-MIB', 'SNMP-' + name, name + 'X', name[:-1]]))
     try:
         r = s.fileExists(name, srctime, rebuild=cfg['rebuild'])
         return 'silent' if r is None else 'returned:%r' % (r,)
